@@ -217,8 +217,8 @@ Theorem C11_tries_all :
       (elems (n_pool n)).
 Proof. exact validate_tries_all. Qed.
 
-(* a refused Validate changes neither the chain nor the registries; the pool keeps its
-   transactions and is left shuffled only when AddBlock failed *)
+(* a refused Validate changes neither the chain nor the registries nor the pool (weaker shape
+   kept from before the fix c2ebc37; C11_refused_id below is the full statement) *)
 Theorem C11_refused_unchanged :
   forall (value_fn : N -> bool -> Z -> N) (addr_of : string -> string) (sig_ok : input -> bool)
          (H : block -> hash) (gen_id : slice input -> slice output -> Z -> string)
@@ -242,7 +242,7 @@ Proof. exact validate_refused_unchanged. Qed.
    Validate either leaves the whole node (pool order included) as it was, for one of three
    reasons: same tick, missed tick, the previous tip does not apply; or the tick is not after
    the tip and has passed the two tick tests (it is before the tip, or the tip is dated 0 and the
-   tick is not positive): AddBlock refuses it and the pool is left shuffled *)
+   tick is not positive): AddBlock refuses it *)
 Theorem C11_refused_cases :
   forall (value_fn : N -> bool -> Z -> N) (addr_of : string -> string) (sig_ok : input -> bool)
          (H : block -> hash) (gen_id : slice input -> slice output -> Z -> string)
@@ -252,12 +252,19 @@ Theorem C11_refused_cases :
     (n' = n /\
      (e = ESameTick \/ e = EMissedTick \/
       update_utxos (ur (n_c n)) (last_block_txs (chain (n_c n))) (last_block_ts (chain (n_c n))) = Err e)) \/
-    (e = ETime /\ chain (n_c n) <> [] /\ ts <= last_block_ts (chain (n_c n)) /\
-     n' = mkNode (n_c n) (match n_pool n with
-                          | Some _ => Some (permute perm (elems (n_pool n)))
-                          | None => None
-                          end)).
+    (e = ETime /\ chain (n_c n) <> [] /\ ts <= last_block_ts (chain (n_c n)) /\ n' = n).
 Proof. exact validate_refused_cases. Qed.
+
+(* and, whatever the reason, the refusal leaves the whole node - pool included, in its order -
+   exactly as it was: Validate shuffles, removes and appends the reward on a copy of the pool *)
+Theorem C11_refused_id :
+  forall (value_fn : N -> bool -> Z -> N) (addr_of : string -> string) (sig_ok : input -> bool)
+         (H : block -> hash) (gen_id : slice input -> slice output -> Z -> string)
+         (St : settings) (validator : string) (n : node) (ts : Z) (perm : list nat)
+         (n' : node) (e : err),
+    validate value_fn addr_of sig_ok H gen_id St validator n ts perm = (n', Refused e) -> n' = n.
+Proof. exact validate_refused_id. Qed.
+Print Assumptions C11_refused_id.
 
 (* in particular, for a tick after the tip (or on an empty chain) *)
 Theorem C11_refused_same :
@@ -336,7 +343,7 @@ Example C11_accept_then_produce :
 Proof. vm_compute. repeat split. Qed.
 
 (* a tick before the tip (chain dated 7, 12; tick 9) passes the two tick tests and is refused by
-   AddBlock: the chain state is kept and the two pooled transactions are left in shuffled order *)
+   AddBlock: the chain state is kept and the two pooled transactions stay as they were *)
 Example C11_tick_before_tip_refused :
   let St := mkSettings 5 1 100 10 in
   let v := (fun (x : N) (_ : bool) (_ : Z) => x) in
@@ -354,7 +361,7 @@ Example C11_tick_before_tip_refused :
     map b_ts (chain (n_c n3)) = [7; 12] /\
     snd r = Refused ETime /\
     n_c (fst r) = n_c n3 /\
-    pool_ids (fst r) = ["tb"%string; "ta"%string].
+    pool_ids (fst r) = ["ta"%string; "tb"%string].
 Proof. vm_compute. repeat split. Qed.
 
 Print Assumptions C11_admission_sound.
